@@ -32,8 +32,9 @@ OP = {
 
 
 class Outcome:
-    def __init__(self, status, world, data):
+    def __init__(self, status, world, data, stack=None):
         self.status, self.world, self.data = status, world, data
+        self.stack = stack  # the operand stack at the halt (bottom first)
 
     @property
     def pc(self):
@@ -155,7 +156,7 @@ def run(code, env, world=None, max_steps=20000, max_paths=4000, feas_ms=3000, st
                         stack.append(v)
                     pc += 1
         except Halt as h:
-            outs.append(Outcome(h.status, h.world, h.data))
+            outs.append(Outcome(h.status, h.world, h.data, stack=list(stack)))
     return outs
 
 
